@@ -17,7 +17,7 @@
 //! Nothing in here calls the SDK functions that the properties judge.
 
 use std::{
-    path::{Path, PathBuf},
+    path::PathBuf,
     process::Command,
     sync::{Arc, Mutex},
 };
@@ -30,7 +30,7 @@ use openssl::{
     ecdsa::EcdsaSig,
     hash::{hash, MessageDigest},
     nid::Nid,
-    pkey::{Id, PKey, Private},
+    pkey::{PKey, Private},
     rsa::{Padding, Rsa},
     sign::{RsaPssSaltlen, Signer as OsslSigner},
     x509::{
@@ -1329,9 +1329,6 @@ pub fn find(hay: &[u8], needle: &[u8]) -> Option<usize> {
 pub fn sha256(b: &[u8]) -> Vec<u8> {
     ok(hash(MessageDigest::sha256(), b), "sha256").to_vec()
 }
-
-#[allow(dead_code)]
-fn _unused(_: &Path, _: Id) {}
 
 // =====================================================================================================
 // reader observation helpers shared by C05/C06/C36/C37
